@@ -2,6 +2,7 @@ package rules
 
 import (
 	"fmt"
+	"go/constant"
 	"go/token"
 	"go/types"
 	"strings"
@@ -296,6 +297,29 @@ func ruleSignalTable(c *core.Ctx) {
 					dup = true
 				}
 			}
+			// or the search is a private predicate: the store happens only where
+			// hasUser(id) is false, and hasUser answers true whenever an entry
+			// carries the id it was given
+			if !dup {
+				isPresent := func(v ssa.Value) bool {
+					cr, _ := core.CallResult(v)
+					if cr == nil {
+						return false
+					}
+					h := cr.Common().StaticCallee()
+					if h == nil || !isPrivateHelper(c, h) {
+						return false
+					}
+					args := cr.Common().Args
+					for pi, p := range h.Params {
+						if pi < len(args) && isNewID(args[pi]) && presencePredicate(h, p, isUID) {
+							return true
+						}
+					}
+					return false
+				}
+				dup = core.Guarded(f, appendStore, core.IsFalse(isPresent))
+			}
 			c.Check(dup, rule, "bus.signalHandler.addSignalUser", appendStore.Pos(), "an id already registered prevents a second registration", "addSignalUser registers a user id twice: the subscriber receives every event twice and removal leaves a stale entry")
 		}
 	}
@@ -309,7 +333,10 @@ func ruleSignalTable(c *core.Ctx) {
 	var made []ssa.Value
 	for _, f := range unitOf(c, add) {
 		for _, call := range core.Calls(f) {
-			if cc := call.Common(); cc.IsInvoke() && cc.Method.Name() == "MakeHandler" {
+			if _, isMk := epCall(c, call, "MakeHandler"); isMk {
+				if _, w := thinWrapperOf(c, f, "MakeHandler"); w {
+					continue
+				}
 				if v, ok := call.(*ssa.Call); ok {
 					made = append(made, v)
 				}
@@ -326,13 +353,16 @@ func ruleSignalTable(c *core.Ctx) {
 		return false
 	}
 	for _, f := range unitOf(c, add) {
+		if _, w := thinWrapperOf(c, f, "RemoveHandler"); w {
+			continue
+		}
 		for i, call := range core.Calls(f) {
-			cc := call.Common()
-			if !cc.IsInvoke() || cc.Method.Name() != "RemoveHandler" || len(cc.Args) != 1 {
+			rargs, isRm := epCall(c, call, "RemoveHandler")
+			if !isRm || len(rargs) != 1 {
 				continue
 			}
 			key := fmt.Sprintf("bus.signalHandler.addSignalUser/undo@%s#%d", core.FuncKey(f), i)
-			arg := cc.Args[0]
+			arg := core.StripConv(rargs[0])
 			own := isMade(arg)
 			if ld, ok := arg.(*ssa.UnOp); ok && !own && ld.Op == token.MUL {
 				// newUser.contextID: the field of the entry under construction
@@ -367,6 +397,49 @@ func ruleSignalTable(c *core.Ctx) {
 				"addSignalUser removes a connection handler that is not the one this call created (the handler of the subscriber already registered under that id): its closer unregisters that subscriber, so a client registering an id already in use cancels another client's subscription")
 		}
 	}
+}
+
+// presencePredicate: h returns a boolean, compares the key field of the entries
+// it walks with its parameter p, and answers true on every path from a match.
+func presencePredicate(h *ssa.Function, p *ssa.Parameter, isKey func(ssa.Value) bool) bool {
+	res := h.Signature.Results()
+	if res.Len() != 1 || !types.Identical(res.At(0).Type().Underlying(), types.Typ[types.Bool]) {
+		return false
+	}
+	isP := func(v ssa.Value) bool { return core.Canon(v) == ssa.Value(p) }
+	found := false
+	for _, b := range h.Blocks {
+		if len(b.Instrs) == 0 {
+			continue
+		}
+		ifi, isIf := b.Instrs[len(b.Instrs)-1].(*ssa.If)
+		if !isIf {
+			continue
+		}
+		cm, neg := core.CondCmp(ifi.Cond)
+		if cm.Op != token.EQL && cm.Op != token.NEQ {
+			continue
+		}
+		if !(isKey(cm.X) && isP(cm.Y) || isKey(cm.Y) && isP(cm.X)) {
+			continue
+		}
+		eqEdge := 0
+		if (cm.Op == token.NEQ) != neg {
+			eqEdge = 1
+		}
+		reach := core.SearchReachEdge(b, eqEdge)
+		for _, ret := range core.Returns(h) {
+			if !reach[ret.Block()] {
+				continue
+			}
+			k, isK := core.Canon(ret.Results[0]).(*ssa.Const)
+			if !isK || k.Value == nil || !constant.BoolVal(k.Value) {
+				return false
+			}
+		}
+		found = true
+	}
+	return found
 }
 
 // resolvesTo: v is target, or a parameter of a private helper every call site
@@ -524,6 +597,25 @@ func ruleRefcount(c *core.Ctx) {
 		}
 		cr, _ := sprintfBehind(v)
 		if cr == nil {
+			// a key named by a helper of the repository: the shape of what it returns
+			if hc, _ := core.CallResult(core.Canon(v)); hc != nil {
+				if h := hc.Call.StaticCallee(); h != nil && inRepo(h) && len(h.Blocks) > 0 && h != fn {
+					shape := ""
+					for _, r := range core.Returns(h) {
+						if len(r.Results) != 1 {
+							return "?"
+						}
+						s := keyShape(core.RetVal(r, 0))
+						if s == "?" || (shape != "" && s != shape) {
+							return "?"
+						}
+						shape = s
+					}
+					if shape != "" {
+						return shape
+					}
+				}
+			}
 			return "?"
 		}
 		f, _ := core.ConstString(cr.Call.Args[0])
